@@ -208,6 +208,13 @@ func genTuple(r *gen.Rand, req otuple, trusted []trustEntry) (otuple, string) {
 		g, rel := good()
 		o := g
 		o.port = gen.Pick(r, []int{8080, 8443, 81, 444, 3000})
+		if r.Chance(1, 2) {
+			// the OTHER scheme's default port on this scheme: https://host:80, http://host:443
+			o.port = defPort("http")
+			if g.scheme == "http" {
+				o.port = defPort("https")
+			}
+		}
 		if o.port == g.port {
 			o.port++
 		}
@@ -404,7 +411,7 @@ const (
 //
 // mustReach is only claimed for canonical serialisations (what a conforming browser sends);
 // everything allowed-but-oddly-written is left unasserted.
-func judgeOrigin(reqScheme string, req otuple, trusted []trustEntry, origin, referer *hdrVal) (verdict int, class string, gov *hdrVal, hdr string) {
+func judgeOrigin(reqScheme string, req otuple, trusted []trustEntry, origin, referer *hdrVal, hostNonCanon bool) (verdict int, class string, gov *hdrVal, hdr string) {
 	if origin != nil && !origin.isNull {
 		gov, hdr = origin, "origin"
 	} else if reqScheme == "https" {
@@ -456,6 +463,9 @@ func judgeOrigin(reqScheme string, req otuple, trusted []trustEntry, origin, ref
 	}
 	if !allowedOK {
 		return vMustNotReach, class, gov, hdr
+	}
+	if why == "same" && hostNonCanon {
+		return vNoAssert, class + "(host-spells-default-port)", gov, hdr
 	}
 	if hdr == "origin" && gov.deco == "canon" {
 		return vMustReach, class, gov, hdr
